@@ -160,9 +160,11 @@ def run(chk: lib.Check):
         multi = sorted({anc for (key, anc), c in cnt.items() if c >= 2}, key=lambda u: (sum(1 for _ in byid[u].iter()), u))[:200]
         stats["pool-multi-referenced-subtrees"] = len(multi)
         plan = []
-        share = max(1, n_targets // (6 * len(specs)))
+        share = max(1, n_targets // (7 * len(specs)))
+        reqrels = [e.get("id") for e in all_sem if (e.get(graph.XSI_TYPE) or "").split(":")[-1] in ("CapellaIncomingRelation", "CapellaOutgoingRelation", "InternalRelation")]
+        reqrel_pool = set(reqrels)
         refusal_pool = set()
-        for pool in (leaves, roots, popular, plends, plparents, multi):
+        for pool in (leaves, roots, popular, plends, plparents, multi, reqrels):
             rng.shuffle(pool)
             plan += pool[:share]
             if pool is plends or pool is plparents:
@@ -219,7 +221,31 @@ def run(chk: lib.Check):
                 obj = model.by_uuid(tid)
             except KeyError:
                 continue
-            cont = find_container(obj)
+            forced_entry = None
+            if tid in reqrel_pool:
+                # a requirement relation is deleted through the `relations` list of one of the requirements it connects — which need
+                # not be the element it is stored under (outgoing relations live below the Capella element, internal ones below the source)
+                ends_ = []
+                for end_ in ("source", "target"):
+                    try:
+                        e_ = getattr(obj, end_)
+                    except Exception:  # noqa: BLE001
+                        e_ = None
+                    if e_ is not None and type(e_).__name__ == "Requirement":
+                        ends_.append(e_)
+                cont = None
+                if ends_:
+                    req_ = rng.choice(ends_)
+                    try:
+                        l_ = req_.relations
+                        i_ = next(k_ for k_, x_ in enumerate(l_) if x_.uuid == tid)
+                        cont = (req_, "relations", l_, i_)
+                        forced_entry = rng.choice(["delitem", "remove", "pop"])
+                        stats["requirement-relation-deletions"] += 1
+                    except Exception:  # noqa: BLE001
+                        cont = None
+            else:
+                cont = find_container(obj)
             if cont is None:
                 stats["no-container"] += 1
                 continue
@@ -227,7 +253,7 @@ def run(chk: lib.Check):
             del_acc = getattr(type(par), relname)
             tel = obj._element
             # ---- the entry point decides how many objects go at once
-            entry = rng.choice(["delitem", "delitem", "remove", "delete_all", "delattr", "delattr", "delslice", "delslice", "decl", "decl", "clear", "pop"])
+            entry = forced_entry or rng.choice(["delitem", "delitem", "remove", "delete_all", "delattr", "delattr", "delslice", "delslice", "decl", "decl", "clear", "pop"])
             if tid in refusal_pool:
                 # where a refusal is likely, delete it together with its siblings: all-or-nothing has to hold for the whole call
                 entry = rng.choice(["delattr", "delattr", "delslice", "decl", "delitem"])
@@ -377,6 +403,20 @@ def run(chk: lib.Check):
             chk.note_case((spec0["name"], tid, entry), nontrivial=bool(watched) or len(T) > 1)
             after = snapshot(loader, A)
             if outcome != "ok":
+                # a refused deletion leaves the lookups alone as well: every id of the target subtree still resolves to its element
+                unfound = []
+                for e in T:
+                    if e.get("id") and not e.get("href"):
+                        try:
+                            if loader[e.get("id")] is not e:
+                                unfound.append(e.get("id"))
+                        except KeyError:
+                            unfound.append(e.get("id"))
+                if unfound and after == before:
+                    chk.violation(f"refused-but-unindexed:{outcome}", f"deleting {desc} raised {outcome} and left the XML alone, but {len(unfound)} ids of the target are no longer "
+                                  f"found by their UUID, e.g. {unfound[0]}", {"model": spec0["name"], "target": tid, "entry": entry, "error": outcome, "ids": unfound[:5]})
+                    model = None
+                    continue
                 gone_roots = [A.H(r_) not in after for r_ in roots_el]
                 if after != before and len(roots_el) > 1 and entry in ("delslice", "decl", "clear") and any(gone_roots) and not all(gone_roots) \
                         and gone_roots == sorted(gone_roots, reverse=True):
@@ -501,6 +541,13 @@ def run(chk: lib.Check):
                     try:
                         v = getattr(o, an)
                     except Exception as ex:  # noqa: BLE001
+                        removed_ids = {before[h_][2].get("id") for h_ in before if h_ not in after}
+                        missing_ = TOKEN.findall(str(ex))
+                        if isinstance(ex, KeyError) and missing_ and all(m_ in removed_ids and m_ not in tids for m_ in missing_):
+                            # second order: the reference goes to a LINK ELEMENT that the purge removed (not to a deleted object)
+                            chk.violation("cascade:reference-to-purged-link-element", f"after deleting {desc}, {type(o).__name__}({o.uuid}).{an} raises {ex!r}: it refers to a link "
+                                          f"element that was purged because it pointed into the deleted subtree", {"model": spec0["name"], "target": tid, "holder": o.uuid, "attr": an})
+                            continue
                         chk.violation(f"relation-raises-after-delete:{type(o).__name__}.{an}:{type(ex).__name__}",
                                       f"after deleting {desc}, {type(o).__name__}({o.uuid}).{an} raises {ex!r}",
                                       {"model": spec0["name"], "target": tid, "holder": o.uuid, "attr": an})
